@@ -403,3 +403,41 @@ def require_atoms(fn_where: str, node: ast.AST, atoms: Iterable[str]) -> None:
     for a in atoms:
         if a not in texts:
             raise AnalysisError(f'anchor vanished: atom `{a}` no longer occurs in {fn_where}')
+
+
+def evaluated_calls(e: ast.AST, evl: Evaluator) -> List[ast.Call]:
+    """Calls of expression `e` that are actually evaluated, respecting the
+    short-circuit of and/or and conditional expressions under `evl`."""
+    out: List[ast.Call] = []
+    if isinstance(e, ast.BoolOp):
+        for v in e.values:
+            out.extend(evaluated_calls(v, evl))
+            val = evl.ev(v)
+            if val is UNKNOWN:
+                continue
+            t = evl._truth(val)
+            if (isinstance(e.op, ast.And) and not t) or (isinstance(e.op, ast.Or) and t):
+                break
+        return out
+    if isinstance(e, ast.IfExp):
+        out.extend(evaluated_calls(e.test, evl))
+        val = evl.ev(e.test)
+        if val is UNKNOWN or evl._truth(val):
+            out.extend(evaluated_calls(e.body, evl))
+        if val is UNKNOWN or not evl._truth(val):
+            out.extend(evaluated_calls(e.orelse, evl))
+        return out
+    if isinstance(e, (ast.Lambda, ast.FunctionDef, ast.AsyncFunctionDef, ast.ClassDef)):
+        return out
+    for c in ast.iter_child_nodes(e):
+        out.extend(evaluated_calls(c, evl))
+    if isinstance(e, ast.Call):
+        out.append(e)
+    return out
+
+
+def node_calls(node: Node, evl: Evaluator) -> List[ast.Call]:
+    out: List[ast.Call] = []
+    for x in node.exprs():
+        out.extend(evaluated_calls(x, evl))
+    return out
